@@ -31,12 +31,27 @@ type countListener struct {
 	closed   atomic.Int64
 	jitter   *lib.RNG
 	jmu      sync.Mutex
+	byPeer   sync.Map // client address -> *countConn
+	// slowClose: closing an accepted socket takes this long (longer than the longest poll interval
+	// of Shutdown), as with a TLS close_notify to a peer that reads slowly
+	slowClose time.Duration
 }
 
 type countConn struct {
 	net.Conn
-	l    *countListener
-	once sync.Once
+	l      *countListener
+	once   sync.Once
+	isShut atomic.Bool // the proxy has called Close on this socket
+}
+
+// closedByProxy reports whether the proxy has closed the accepted socket of the client whose
+// local address is given (false also when it is unknown).
+func (l *countListener) closedByProxy(clientAddr string) (known, closed bool) {
+	v, ok := l.byPeer.Load(clientAddr)
+	if !ok {
+		return false, false
+	}
+	return true, v.(*countConn).isShut.Load()
 }
 
 func (l *countListener) nap() {
@@ -57,12 +72,17 @@ func (l *countListener) Accept() (net.Conn, error) {
 		return nil, err
 	}
 	l.accepted.Add(1)
-	return &countConn{Conn: c, l: l}, nil
+	cc := &countConn{Conn: c, l: l}
+	l.byPeer.Store(c.RemoteAddr().String(), cc)
+	return cc, nil
 }
 
 func (c *countConn) Close() error {
 	c.l.nap()
-	c.once.Do(func() { c.l.closed.Add(1) })
+	if d := c.l.slowClose; d > 0 {
+		time.Sleep(d)
+	}
+	c.once.Do(func() { c.isShut.Store(true); c.l.closed.Add(1) })
 	return c.Conn.Close()
 }
 func (c *countConn) RemoteAddr() net.Addr { c.l.nap(); return c.Conn.RemoteAddr() }
@@ -218,7 +238,7 @@ func main() {
 	run.Floor("late_requests_checked", int64(n))
 	run.Floor("late_connects_checked", int64(n/8))
 	run.Floor("shutdown_nil_checked", int64(n/3))
-	run.Floor("drain_expiry_checked", int64(n/10))
+	run.Floor("drain_expiry_checked", int64(n/20))
 	run.Floor("forwarder_variant_runs", 3)
 	run.Finish()
 }
@@ -236,6 +256,9 @@ func scenario(run *lib.Run, hb *lib.Heartbeat, r *lib.RNG, idx int) {
 	cl := &countListener{Listener: base}
 	if r.Chance(2, 3) {
 		cl.jitter = r.Sub(99)
+	}
+	if r.Sub(98).Chance(1, 3) {
+		cl.slowClose = 600 * time.Millisecond
 	}
 	tr := &http.Transport{DialContext: func(ctx context.Context, network, addr string) (net.Conn, error) {
 		return (&net.Dialer{Timeout: 5 * time.Second}).DialContext(ctx, network, g.o.Addr)
@@ -489,6 +512,9 @@ func scenario(run *lib.Run, hb *lib.Heartbeat, r *lib.RNG, idx int) {
 			} else {
 				run.Count("racing_dropped", 1)
 			}
+			// an exchange that finished entirely before the shutdown call leaves an ordinary idle
+			// keep-alive connection behind; the proxy waits for such clients, so this one leaves now
+			c.st.Close()
 		}
 	}
 	for _, l := range lates {
@@ -565,13 +591,46 @@ func scenario(run *lib.Run, hb *lib.Heartbeat, r *lib.RNG, idx int) {
 						pprof.Lookup("goroutine").WriteTo(f, 2)
 						f.Close()
 					}
-					fail("shutdown-did-not-drain", fmt.Sprintf("every exchange finished and every client is gone, yet Shutdown returned %v (open connections by the harness count: %d)", e, cl.accepted.Load()-cl.closed.Load()), nil)
+					var still []string
+					for _, c := range conns {
+						if known, shut := cl.closedByProxy(c.st.C.LocalAddr().String()); known && !shut {
+							still = append(still, c.phase+":"+c.id)
+						}
+					}
+					for k, st := range newConns {
+						if known, shut := cl.closedByProxy(st.C.LocalAddr().String()); known && !shut {
+							still = append(still, fmt.Sprintf("new-connection:%d", k))
+						}
+					}
+					fail("shutdown-did-not-drain", fmt.Sprintf("every exchange finished and every client is gone, yet Shutdown returned %v (open connections by the harness count: %d: %v)", e, cl.accepted.Load()-cl.closed.Load(), still), nil)
 				}
-			} else if d := cl.accepted.Load() - cl.closed.Load(); d != 0 {
+			} else {
+				// success: every connection that was being served has been closed by the proxy
+				// (judged at once, per connection; unserved ones may still be open)
+				for _, c := range conns {
+					if !c.served {
+						continue
+					}
+					if known, shut := cl.closedByProxy(c.st.C.LocalAddr().String()); known && !shut {
+						fail("shutdown-success-with-served-connection-open", fmt.Sprintf("Shutdown returned nil while the connection of %s (%s), which was being served when shutdown began, had not been closed by the proxy", c.id, c.phase), nil)
+						break
+					}
+				}
+			}
+			if d := cl.accepted.Load() - cl.closed.Load(); e == nil && d != 0 {
 				// success must mean every served connection has been closed by the proxy
-				time.Sleep(50 * time.Millisecond)
+				// connections that were not being served (accepted around the shutdown call) may
+				// still be on their way to being closed without service: bounded progress, not an instant
+				tw := time.Now()
+				for time.Since(tw) < 5*time.Second && cl.accepted.Load() != cl.closed.Load() {
+					time.Sleep(2 * time.Millisecond)
+				}
 				if d2 := cl.accepted.Load() - cl.closed.Load(); d2 != 0 {
-					fail("shutdown-success-with-open-connections", fmt.Sprintf("Shutdown returned nil but %d accepted connections were not closed by the proxy", d2), nil)
+					if hb.Healthy(tw) {
+						fail("shutdown-success-with-open-connections", fmt.Sprintf("5 s after Shutdown returned nil %d accepted connections were still not closed by the proxy", d2), nil)
+					} else {
+						run.Inconclusive("open connections after shutdown, unhealthy heartbeat")
+					}
 				}
 			}
 		}
